@@ -1,7 +1,7 @@
 (* C18  Table lifecycle and metadata stay coherent. *)
 From Coq Require Import List Bool.
 From Minidyn Require Import Base.Str Base.FMap Base.Outcome Model.Value Model.Key Model.Index Model.Table Model.Client.
-From Minidyn Require Import Proofs.FMapFacts Proofs.TableInv Proofs.ClientInv Proofs.ClientFacts.
+From Minidyn Require Import Proofs.FMapFacts Proofs.TableInv Proofs.ClientInv Proofs.ClientFacts Proofs.Lifecycle.
 Import ListNotations.
 
 (* operations addressed to one table never affect another table of the client *)
@@ -25,3 +25,47 @@ Proof.
   intros lm lu sdk ops cn tn c t Hc Ht. destruct (TInv_reachable lm lu sdk ops cn tn c t Hc Ht) as [_ Hs].
   cbn. rewrite Hs. unfold keys. apply map_length.
 Qed.
+
+(* creating a table that exists fails with ResourceInUse and changes nothing *)
+Theorem C18_create_existing_in_use :
+  forall s c ct, v1_name_ok s (ct_table ct) = true -> mem (ct_table ct) (c_tables c) = true -> create_table s c ct = (c, err_obs InUse).
+Proof. exact create_existing_in_use. Qed.
+
+(* a created table starts empty; its description is the description of that empty table *)
+Theorem C18_create_starts_empty :
+  forall s c ct c' d, create_table s c ct = (c', ok_obs (PDesc d) []) ->
+    exists t, lookup (ct_table ct) (c_tables c') = Some t /\ t_data t = [] /\ t_sorted t = [] /\ d = describe t /\ d_count d = 0.
+Proof. exact create_starts_empty. Qed.
+
+(* operating on a table that does not exist fails with ResourceNotFound *)
+Theorem C18_missing_table_not_found :
+  forall s c tn names vals exprs,
+    v1_name_ok s tn = true -> c_failure c = None -> validate_expr_attrs (keys names) (keys vals) exprs = true ->
+    lookup tn (c_tables c) = None -> preamble s c tn names vals exprs = inl NotFound.
+Proof. exact missing_table_not_found. Qed.
+
+Theorem C18_describe_missing_not_found :
+  forall lm lu s c tn, lookup tn (c_tables c) = None -> step lm lu s c (ODescribeTable tn) = (c, err_obs NotFound).
+Proof. exact describe_missing_not_found. Qed.
+
+Theorem C18_delete_missing_not_found :
+  forall lm lu s c tn, v1_name_ok s tn = true -> lookup tn (c_tables c) = None -> step lm lu s c (ODeleteTable tn) = (c, err_obs NotFound).
+Proof. exact delete_missing_not_found. Qed.
+
+(* DeleteTable removes the table (a later CreateTable builds the empty table of C18_create_starts_empty) *)
+Theorem C18_delete_removes_table :
+  forall lm lu s c tn t, v1_name_ok s tn = true -> wf (c_tables c) -> lookup tn (c_tables c) = Some t ->
+    lookup tn (c_tables (fst (step lm lu s c (ODeleteTable tn)))) = None.
+Proof. exact delete_removes_table. Qed.
+
+(* ClearTable empties the table and every index *)
+Theorem C18_clear_empties_table_and_indexes :
+  forall lm lu s c tn t, lookup tn (c_tables c) = Some t -> t_name t = tn ->
+    exists t', lookup tn (c_tables (fst (step lm lu s c (OClearTable tn)))) = Some t' /\ t_data t' = [] /\ t_sorted t' = [] /\
+               forall n ix, In (n, ix) (t_indexes t') -> ix_sorted ix = [] /\ ix_refs ix = [].
+Proof. exact clear_empties. Qed.
+
+(* separate clients share no state *)
+Theorem C18_clients_independent :
+  forall lm lu s w co other, other <> fst co -> lookup other (fst (wstep lm lu s w co)) = lookup other w.
+Proof. exact clients_independent. Qed.
